@@ -176,7 +176,8 @@ def equivalence(name: str, res, obs):
         for ps, path in path_spellings:
             for opk in ("set", "rm"):
                 r = E.fresh_apply(doc, E.Op(opk, path, "2"))
-                key0 = {"class": charclass(name), "file": fs, "path": ps, "op": opk, "context": "equivalence"}
+                key0 = {"class": charclass(name), "file": fs, "path": ps, "op": opk, "context": "equivalence",
+                        "spellings": "same" if fs.split("-")[0] == ps.split("-")[0] else "different"}
                 case = {"names": [name], "path": path, "doc": doc, "op": opk}
                 obs["equivalence_runs"] = obs.get("equivalence_runs", 0) + 1
                 if r.exc_type is not None:
